@@ -242,6 +242,9 @@ impl ConnectionState {
                     send(&tx, ConsumerMessage::ServerClosedChannel(make_err()))?;
                 }
                 send(&slot_tx, Err(make_err()))?;
+                // Replies we were holding back until a publish in progress on this channel
+                // completed: it never will now, so send them before confirming the close.
+                inner.outbuf.append(slot.deferred_frames);
                 inner.push_method(n, AmqpChannel::CloseOk(ChannelCloseOk {}));
             }
             // Server ack for client-initiated channel close.
